@@ -64,7 +64,19 @@ def run(page_count, fw, schedule, workdir, symlink=False, device_id='28e9:0189',
         for decoy in ('fwv.bin', 'fw2.bin'):
             with open(os.path.join(workdir, decoy), 'wb') as f:
                 f.write(b'\x55' * max(1, len(fw) // 2))
-    if symlink:
+    if symlink == 'dotdot':
+        # (round 10) the path goes through a symbolic link to a directory and back up: latest -> rel/out, latest/../<name> is
+        # rel/<name> (the operating system resolves the link first), NOT <workdir>/<name>, where a decoy of another content sits
+        name = os.path.basename(path)
+        os.makedirs(os.path.join(workdir, 'rel', 'out'), exist_ok=True)
+        with open(os.path.join(workdir, 'rel', name), 'wb') as f:
+            f.write(fw)
+        with open(path, 'wb') as f:
+            f.write(b'\xa5' * (len(fw) + 7))
+        if not os.path.lexists(os.path.join(workdir, 'latest')):
+            os.symlink(os.path.join('rel', 'out'), os.path.join(workdir, 'latest'))
+        path = os.path.join(workdir, 'latest', '..', name)
+    elif symlink:
         with open(os.path.join(workdir, 'firmware-v2.bin'), 'wb') as f:
             f.write(fw)
         os.symlink('firmware-v2.bin', path)
